@@ -1028,8 +1028,8 @@ func c10(c *Ctx) {
 	if os.Getenv("VERIF_C10_ONLY") != "808" {
 		genAtt(c, batt)
 	}
-	// scripts that were played again because an answer timed out or a reset was not explained by the bytes sent
-	// (never because of a crash): reported, not hidden
+	// scripts that were played again because a connection got an RST that the bytes sent do not explain, or a dial failed
+	// (never because of a missing / wrong answer, a FIN, or a crash): reported, not hidden
 	for kind, n := range C10Transients {
 		c.Dist[kind+"/transient-retry"] += n
 	}
@@ -1050,6 +1050,7 @@ func c10(c *Ctx) {
 	}
 	if os.Getenv("VERIF_C10_ONLY") == "" {
 		memory808(c) // 2 s: the finding is reproduced in every tier
+		growth(c)    // 1 s: the quick-tier witness of the two unbounded-buffer findings
 	}
 	if !c.Quick() && os.Getenv("VERIF_C10_ONLY") == "" {
 		expirySocket(c)
@@ -1180,6 +1181,30 @@ func expirySocket(c *Ctx) {
 		s.good808()
 		s.accept808()
 		run(c, s)
+	}
+}
+
+// growth (every tier): what cannot be parsed is kept.  One connection sends 48 MB the server can only buffer; the resident
+// memory of the (unlimited) server process grows by about as much - the cheap witness of C10/<srv>/unbounded-buffer (the
+// thorough tier lets the same growth reach an address-space limit: containbuf).  A bounded buffer would hold a small
+// fraction of what was sent.
+func growth(c *Ctx) {
+	for _, kind := range []string{"808", "att"} {
+		req := "containgrow " + kind + " 48"
+		ans := RunOp(req)
+		c.Eval(req, true)
+		c.Count(kind + "/growth")
+		if field(ans, "first") != "1" || field(ans, "sent_mb") != "48" {
+			c.Count(kind + "/growth-control-failed")
+			continue
+		}
+		held := 0
+		fmt.Sscan(field(ans, "held_mb"), &held)
+		if held >= 36 {
+			c.Violate(Violation{Signature: "C10/" + kind + "/unbounded-buffer",
+				What:  "one connection makes the server hold everything it sends: 48 MB of bytes that can only be buffered raise the resident memory of the process by about as much; nothing bounds the per-connection buffer (with an address-space limit the process dies: containbuf, thorough tier)",
+				Input: req, Observed: Trunc(ans, 300), Required: "held_mb far below sent_mb (a bound on what one connection can make the server keep)"})
+		}
 	}
 }
 
